@@ -379,6 +379,7 @@ func Execute(t *testing.T, sc Scenario, c *Case, recording bool, tapeSeed uint64
 	cfg := c.Sim
 	cfg.Trace = trace
 	done := false
+	var envOut *Env
 	func() {
 		defer func() {
 			if r := recover(); r != nil {
@@ -428,13 +429,25 @@ func Execute(t *testing.T, sc Scenario, c *Case, recording bool, tapeSeed uint64
 				}
 			}
 			env.S = nil
+			envOut = env
 			done = true
 		})
 	}()
 	if recording {
 		c.Tape = append([]int32(nil), tape.Data...)
 	}
+	// checks that must not run inside the bubble (porcupine starts goroutines
+	// and timers of its own)
+	if pc, ok := sc.(PostChecker); ok && done && envOut != nil && v.HarnessError == "" && v.Inconclusive == "" {
+		pc.PostCheck(c, envOut, &v)
+	}
 	return v
+}
+
+// PostChecker is implemented by scenarios whose oracle has a part that runs
+// after the bubble has ended.
+type PostChecker interface {
+	PostCheck(c *Case, env *Env, v *Verdict)
 }
 
 // Minimize shrinks a failing case while the violation class persists.
